@@ -9,7 +9,7 @@ From Coq Require Import List String Permutation.
 From TS Require Import Model.Str Model.Outcome Model.Unicode Model.Syntax Model.Attrs Model.Types Model.Parse.
 From TS Require Import Model.Lang.TypeScript Model.Lang.Kotlin Model.Lang.Swift Model.Lang.Scala Model.Lang.Go Model.Lang.Python.
 From TS Require Import Spec.Lexers Spec.C15Spec Spec.C15Render.
-From TS Require Proofs.C15 Proofs.C15_Render Proofs.C15_Kotlin.
+From TS Require Proofs.C15 Proofs.C15_Render Proofs.C15_Kotlin Proofs.C15_Go.
 Import ListNotations.
 
 (* ---- front end: parse_comment_attrs delivers one string per doc attribute (which is what `/// s`,
@@ -187,3 +187,20 @@ Theorem C15_kt_render_partial : forall (cfg : kt_config) it text,
      forallb safe_kt (c15_item_docs_helpers_first it)).
 Proof. exact Proofs.C15_Kotlin.C15_kt_render_partial. Qed.
 Print Assumptions C15_kt_render_partial.
+
+(* ---- Go, one item through the model's write_struct / write_enum (helper structs, string enum, tagged
+   enum with its key type, constants, UnmarshalJSON / MarshalJSON, accessors, constructors) /
+   write_type_alias / write_const, any configuration, any set of known struct names and any printer
+   state (the imports collected so far): code parts and `// ` fragments whose doc strings are exactly
+   [c15_item_docs_helpers_first it], in this order; contained iff all are safe_go, given neutral code
+   parts (partial as above) ---- *)
+Theorem C15_go_render_partial : forall (uc : unicode) (cfg : go_config) custom_structs it st text st',
+  go_write_item uc cfg custom_structs it st = Ok (text, st') ->
+  exists parts,
+    text = text_of (c15_file_pieces C15go parts) /\
+    docs_of (c15_file_pieces C15go parts) = c15_item_docs_helpers_first it /\
+    (Forall (c15_code_neutral C15go) parts ->
+     c15_contained C15go LCode (mark (c15_file_pieces C15go parts)) =
+     forallb safe_go (c15_item_docs_helpers_first it)).
+Proof. exact Proofs.C15_Go.C15_go_render_partial. Qed.
+Print Assumptions C15_go_render_partial.
